@@ -9,7 +9,7 @@
     and the identifiers the rewrite writes into the SQL — always have the same
     length (C02_star_arity_partial), so inference and embedded text cannot drift apart
     for a star whatever the tables in scope are. *)
-From Verif Require Import Model.Compile Spec.PgScope Judge.JQ Judge.J02 Proofs.ColumnsFacts Proofs.CompileFacts2 Proofs.ArityFacts.
+From Verif Require Import Model.Compile Spec.PgScope Judge.JQ Judge.J02 Proofs.ColumnsFacts Proofs.CompileFacts2 Proofs.ArityFacts Proofs.ScopeRefine Proofs.ScopeRefineT Proofs.SelectRefine Proofs.DeleteRefine.
 Open Scope string_scope.
 Open Scope list_scope.
 
@@ -65,3 +65,125 @@ Theorem C02_refuted_derived_table :
   exists cols, output_columns 20 (mk_env EPostgres t_cat []) [] derived_stmt = Ok cols /\ List.length cols = 2%nat
   /\ exists row, pg_describe t_cat derived_stmt = POk row /\ List.length row = 1%nat.
 Proof. eexists. split; [vm_compute; reflexivity|]. split; [reflexivity|]. eexists. split; [vm_compute; reflexivity|reflexivity]. Qed.
+
+(** ** Refinement to the reference semantics.
+
+    One query level (C02_level_refines_partial): given related scopes - same
+    relation names, same column names in order; distinct relation names;
+    distinct column names per relation - a result list of stars and column
+    references is accepted by sqlc's inference iff Spec/PgScope accepts it, and
+    then both give the same number of columns with the same names in the same
+    order.
+
+    A whole statement (C02_simple_select_partial): sqlc's outputColumns and the
+    row description of Spec/PgScope.describe agree on acceptance, on the NUMBER
+    of result columns and, column by column, on the name (row_rel).
+    The statements covered ("simple SELECT"): SELECT <targets> FROM <base
+    tables, each with or without alias, separated by commas or combined by JOIN> [WHERE / GROUP BY / HAVING / ORDER BY]
+    with no WITH clause and no sub-select; every target a star (bare or qualified by a
+    relation name), a column reference (c or t.c, with or without AS) or an expression
+    that is not a column reference, CASE, COALESCE, sub-select or cast
+    ([target_ok]).  [strict] / [deep] select how much the reference semantics
+    checks: strict = every column reference of every clause must resolve
+    (PostgreSQL) - the theorem then needs clauses without column references -,
+    non-strict = only what property C10 lists (columns paired with a parameter:
+    none here); deep = references inside result expressions must resolve - the
+    theorem then needs result expressions without inner references -, non-deep =
+    only targets that ARE references.  The hypotheses on [from_items],
+    [level_refs], [level_subselects] state these shape facts about the AST. *)
+Theorem C02_level_refines_partial : forall e sc tables targets,
+  scope_rel sc tables -> NoDup (map si_name sc) ->
+  Forall (fun it => NoDup (map sc_name (si_cols it))) sc ->
+  Forall (simple_target sc) targets ->
+  match row_of sc [sc] targets, targets_columns e tables targets with
+  | POk row, Ok cols => map sc_name row = map qc_name cols
+  | PErr _, Err _ => True
+  | _, _ => False
+  end.
+Proof. exact level_refines. Qed.
+Print Assumptions C02_level_refines_partial.
+
+Theorem C02_simple_select_partial : forall (e : env) (strict deep : bool) (stmt : node) (targets rvs fitems : list node) (leavess : list (list node)) (f : nat),
+  kind_of stmt = "SelectStmt" -> kid "WithClause" stmt = Nil ->
+  kid "TargetList" stmt = NList targets -> targets <> [] ->
+  kid "FromClause" stmt = NList fitems -> Forall2 (join_tree (S f)) fitems leavess -> rvs = List.concat leavess ->
+  from_items (kid "FromClause" stmt) = rvs ->
+  (if strict then level_refs (NList [kid "FromClause" stmt; kid "WhereClause" stmt; kid "GroupClause" stmt;
+                                     kid "HavingClause" stmt; kid "SortClause" stmt])
+   else paired_refs (NList [kid "FromClause" stmt; kid "WhereClause" stmt; kid "GroupClause" stmt;
+                            kid "HavingClause" stmt; kid "SortClause" stmt])) = [] ->
+  level_subselects (NList ([kid "FromClause" stmt; kid "WhereClause" stmt; kid "GroupClause" stmt;
+                            kid "HavingClause" stmt; kid "SortClause" stmt] ++ map (kid "Val") targets ++ [])) = [] ->
+  (if deep then level_refs (NList (map (kid "Val") targets)) else direct_refs targets) = refs_of targets ->
+  NoDup (map visible_name rvs) ->
+  (forall sc, spec_scope (env_cat e) rvs = POk sc ->
+     Forall (fun it => NoDup (map sc_name (si_cols it))) sc /\ Forall (target_ok sc) targets) ->
+  forall g,
+  match describe (env_cat e) strict deep (S (S f)) [] [] stmt, output_columns (S g) e [] stmt with
+  | POk row, Ok cols => List.length row = List.length cols /\ Forall2 row_rel row cols
+  | PErr _, Err _ => True
+  | _, _ => False
+  end.
+Proof.
+  intros e strict deep stmt targets rvs fitems leavess f H1 H2 H3 H4 H5 H6 H7 H8 H9 H10 H11 H12 H13 g.
+  pose proof (simple_select_refines_t e strict deep stmt targets rvs fitems leavess f H1 H2 H3 H4 H5 H6 H7 H8 H9 H10 H11 H12 H13 g) as Ht.
+  pose proof (simple_select_arity e strict deep stmt targets rvs fitems leavess f H1 H2 H3 H4 H5 H6 H7 H8 H9 H10 H11 H12 H13 g) as Ha.
+  destruct (describe (env_cat e) strict deep (S (S f)) [] [] stmt); destruct (output_columns (S g) e [] stmt); auto.
+Qed.
+Print Assumptions C02_simple_select_partial.
+
+(** the same for DELETE FROM <base table> [WHERE ...] RETURNING <targets> (no USING) *)
+Theorem C02_simple_delete_partial : forall (e : env) (strict deep : bool) (stmt : node) (targets : list node) (f : nat),
+  kind_of stmt = "DeleteStmt" -> kid "WithClause" stmt = Nil ->
+  kid "ReturningList" stmt = NList targets ->
+  kind_of (kid "Relation" stmt) = "RangeVar" -> kid "UsingClause" stmt = Nil ->
+  (if strict then level_refs (NList [kid "WhereClause" stmt]) else paired_refs (NList [kid "WhereClause" stmt])) = [] ->
+  level_subselects (NList ([kid "WhereClause" stmt] ++ map (kid "Val") targets ++ [])) = [] ->
+  (if deep then level_refs (NList (map (kid "Val") targets)) else direct_refs targets) = refs_of targets ->
+  (forall sc, spec_scope (env_cat e) [kid "Relation" stmt] = POk sc ->
+     Forall (fun it => NoDup (map sc_name (si_cols it))) sc /\ Forall (target_ok sc) targets) ->
+  forall g,
+  match describe (env_cat e) strict deep (S (S f)) [] [] stmt, output_columns (S g) e [] stmt with
+  | POk row, Ok cols => Forall2 row_rel row cols
+  | PErr _, Err _ => True
+  | _, _ => False
+  end.
+Proof. exact simple_delete_refines_t. Qed.
+Print Assumptions C02_simple_delete_partial.
+
+(** the hypotheses are met by SELECT id, x.STAR, count(STAR) FROM t AS x (and the
+    conclusion is the non-trivial branch: both accept, three columns) *)
+Definition col_target (parts : list string) : node :=
+  Node "ResTarget" [] [] [("Val", Node "ColumnRef" [] [] [("Fields", NList (map str_node parts))])].
+Definition qstar_target (q : string) : node :=
+  Node "ResTarget" [] [] [("Val", Node "ColumnRef" [] [] [("Fields", NList [str_node q; Node "A_Star" [] [] []])])].
+Definition count_target : node :=
+  Node "ResTarget" [] [] [("Val", Node "FuncCall" [] [("AggStar", 1%Z)] [("Func", Node "FuncName" [("Name", "count")] [] [])])].
+Definition rv_t_as_x : node := Node "RangeVar" [("Relname", "t")] [] [("Alias", Node "Alias" [("Aliasname", "x")] [] [])].
+Definition simple_stmt : node :=
+  Node "SelectStmt" [] [] [("TargetList", NList [col_target ["id"]; qstar_target "x"; count_target]); ("FromClause", NList [rv_t_as_x])].
+Example C02_simple_select_non_vacuous :
+  exists row cols,
+    describe t_cat true true 5 [] [] simple_stmt = POk row /\
+    output_columns 5 (mk_env EPostgres t_cat []) [] simple_stmt = Ok cols /\
+    map sc_name row = ["id"; "id"; "count"] /\ map qc_name cols = ["id"; "id"; "count"].
+Proof. eexists. eexists. vm_compute. repeat split; reflexivity. Qed.
+Example C02_simple_select_hypotheses :
+  let e := mk_env EPostgres t_cat [] in
+  let targets := [col_target ["id"]; qstar_target "x"; count_target] in
+  kind_of simple_stmt = "SelectStmt" /\ kid "WithClause" simple_stmt = Nil /\
+  kid "TargetList" simple_stmt = NList targets /\ kid "FromClause" simple_stmt = NList [rv_t_as_x] /\
+  Forall2 (join_tree 1) [rv_t_as_x] [[rv_t_as_x]] /\
+  from_items (kid "FromClause" simple_stmt) = [rv_t_as_x] /\
+  level_refs (NList (map (kid "Val") targets)) = refs_of targets /\ direct_refs targets = refs_of targets /\
+  (forall sc, spec_scope (env_cat e) [rv_t_as_x] = POk sc ->
+     Forall (fun it => NoDup (map sc_name (si_cols it))) sc /\ Forall (target_ok sc) targets).
+Proof.
+  cbv zeta. repeat split; try (vm_compute; reflexivity).
+  - repeat constructor.
+  - vm_compute in H. inversion H; subst. repeat constructor. intros [].
+  - vm_compute in H. inversion H; subst. constructor; [|constructor; [|constructor; [|constructor]]].
+    + apply TO_simple. eapply ST_col; try reflexivity.
+    + apply TO_simple. eapply ST_star_of with (q := "x"); try reflexivity; [discriminate|left; reflexivity].
+    + apply TO_opaque; reflexivity.
+Qed.
